@@ -254,14 +254,14 @@ MC_INIT
         int ls = mc::thorough() ? 7 : 6;
         Str src = enum_str(AB0, 3, ls, 4);
         long nsub = count_upto(3, 3);
-        const Str REPS[6] = {Str(""), Str("a"), Str("b"), Str("ab"), Str("\0", 1), Str("aba")};
-        mc::describe("replace/replace_substrings src=%s x all %ld patterns of length <=3 x 6 replacements", esc(src).c_str(),
+        const Str REPS[7] = {Str(""), Str("a"), Str("b"), Str("ab"), Str("\0", 1), Str("aba"), Str("ba")};
+        mc::describe("replace/replace_substrings src=%s x all %ld patterns of length <=3 x 7 replacements", esc(src).c_str(),
                      nsub);
         long nt = 0, n = 0;
         for (long k = 0; k < nsub; k++)
         {
             Str sub = nth_str(AB0, 3, k);
-            for (int ri = 0; ri < 6; ri++)
+            for (int ri = 0; ri < 7; ri++)
             {
                 const Str &rep = REPS[ri];
                 Str want = ref_replace(src, sub, rep);
@@ -278,12 +278,11 @@ MC_INIT
                                   esc(rep).c_str(), esc(got).c_str(), esc(want).c_str());
                 // replace_substrings into an output buffer of exactly maxsize bytes
                 size_t need = want.size() + 1;
-                size_t sizes[5] = {0, 1, need - 1, need, need + 3};
-                std::sort(sizes, sizes + 5);
-                size_t *send = std::unique(sizes, sizes + 5);
-                for (size_t *sp = sizes; sp != send; sp++)
+                // every maxsize 0..need+1 and need+3: the cut falls on every byte of the result, also inside a match
+                for (size_t maxsize = 0; maxsize <= need + 3; maxsize++)
                 {
-                    size_t maxsize = *sp;
+                    if (maxsize == need + 2)
+                        continue;
                     PL in(src, 0), sb(sub, 1), rp(rep, 2);
                     Exact out(maxsize, 3);
                     mc::crash_context(maxsize < need ? "C19.replace_substrings.memory.result_longer_than_maxsize"
@@ -297,8 +296,16 @@ MC_INIT
                                           esc(src).c_str(), esc(sub).c_str(), esc(rep).c_str(), maxsize,
                                           esc(Str(out.p, want.size() + 1)).c_str(), esc(want).c_str());
                     }
-                    else
-                        mc::count("replace_substrings_truncating_calls_memory_only");
+                    else if (maxsize >= 1)
+                    { // replace_substrings.c: "The result is cut to maxsize - 1 bytes and always terminated"
+                        mc::count("replace_substrings_truncating_calls");
+                        if (memcmp(out.p, want.data(), maxsize - 1) != 0 || out.p[maxsize - 1] != 0)
+                            mc::violation(sub.size() == rep.size() ? "C19.replace_substrings.truncated_value.equal_lengths"
+                                                                   : "C19.replace_substrings.truncated_value",
+                                          "replace_substrings(%s, %s, %s, maxsize=%zu) = %s, want the first %zu bytes of %s and a NUL",
+                                          esc(src).c_str(), esc(sub).c_str(), esc(rep).c_str(), maxsize, esc(Str(out.p, maxsize)).c_str(),
+                                          maxsize - 1, esc(want).c_str());
+                    }
                 }
             }
         }
